@@ -537,6 +537,11 @@ func (c *child) runCase(cs *Case, wantHex, dry bool) M {
 			res["err"] = err.Error()
 			return res
 		}
+	case "holes":
+		if err := c.runHoles(cs, slot, send, dry); err != nil {
+			res["err"] = err.Error()
+			return res
+		}
 	case "eseq":
 		if err := c.runESeq(cs, slot, send, dry); err != nil {
 			res["err"] = err.Error()
@@ -1048,7 +1053,9 @@ func (c *child) runPress(cs *Case, slot int, obs map[string]bool) error {
 // runESeq establishes a connection (passively through the listener, or opened
 // actively by the stack towards the peer), then plays the letters of the case
 // with the real sequence numbers.
-func (c *child) runESeq(cs *Case, slot int, send func(pkt), dry bool) error {
+// openConn establishes a connection for a case: passively through the listener ("pas") or opened
+// by the stack towards the peer ("act", the application echoes).
+func (c *child) openConn(cs *Case, slot int, dry bool) (*conn, int, []byte, error) {
 	sk := gi(cs.C, "sk") == 1
 	k := &conn{v: 4, nic: 1, sport: tagPort(slot), dport: lstPort, iss: uint32(0x04000000 + slot*4099)}
 	k.snd, k.rcv = k.iss+1, 1
@@ -1063,7 +1070,7 @@ func (c *child) runESeq(cs *Case, slot int, send func(pkt), dry bool) error {
 			return d.flags&(wire.SYN|wire.ACK|wire.RST) == wire.SYN|wire.ACK && d.ack == k.iss+1
 		}), c.wait)
 		if !ok {
-			return fmt.Errorf("handshake: no SYN-ACK for port %d within %v", k.sport, c.wait)
+			return nil, 0, nil, fmt.Errorf("handshake: no SYN-ACK for port %d within %v", k.sport, c.wait)
 		}
 		k.irs, k.rcv, win = e.d.seq, e.d.seq+1, e.d.win
 		c.Inject(1, 0x0800, [][]byte{k.seg(wire.ACK, k.snd, k.rcv, nil, nil)})
@@ -1077,28 +1084,89 @@ func (c *child) runESeq(cs *Case, slot int, send func(pkt), dry bool) error {
 		we, ch := waiter.NewChannelEntry(nil)
 		wq.EventRegister(&we, waiter.EventOut)
 		if err := ep.Connect(tcpip.FullAddress{NIC: 1, Addr: tcpip.Address(peer), Port: uint16(k.sport)}); err != nil && err != tcpip.ErrConnectStarted {
-			return fmt.Errorf("active open: Connect: %v", err)
+			return nil, 0, nil, fmt.Errorf("active open: Connect: %v", err)
 		}
 		e, ok := c.Wait(func(e *emit) bool {
 			return e.d.kind == "tcp" && e.d.v == 4 && e.d.dport == k.sport && e.d.flags&(wire.SYN|wire.ACK) == wire.SYN
 		}, c.wait)
 		if !ok {
-			return fmt.Errorf("active open: the stack sent no SYN within %v", c.wait)
+			return nil, 0, nil, fmt.Errorf("active open: the stack sent no SYN within %v", c.wait)
 		}
 		k.dport, k.irs, k.rcv = e.d.sport, e.d.seq, e.d.seq+1
 		c.Inject(1, 0x0800, [][]byte{k.seg(wire.SYN|wire.ACK, k.iss, k.rcv, synOpts, nil)})
 		e, ok = c.Wait(matchTCP(k, func(d *dec) bool { return d.flags&(wire.SYN|wire.ACK|wire.RST) == wire.ACK && d.ack == k.iss+1 }), c.wait)
 		if !ok {
-			return fmt.Errorf("active open: no ACK of the SYN-ACK within %v", c.wait)
+			return nil, 0, nil, fmt.Errorf("active open: no ACK of the SYN-ACK within %v", c.wait)
 		}
 		win = e.d.win
 		select {
 		case <-ch:
 		case <-time.After(c.wait):
-			return fmt.Errorf("active open: Connect did not complete within %v", c.wait)
+			return nil, 0, nil, fmt.Errorf("active open: Connect did not complete within %v", c.wait)
 		}
 		wq.EventUnregister(&we)
 		go echoLoop(ep, wq)
+	}
+	return k, win, synOpts, nil
+}
+
+// runHoles sends n disjoint out-of-order blocks (and optionally duplicates, merging overlaps, gap fills).
+func (c *child) runHoles(cs *Case, slot int, send func(pkt), dry bool) error {
+	k, _, _, err := c.openConn(cs, slot, dry)
+	if err != nil {
+		return err
+	}
+	f := cs.C
+	n, sz, gap := gi(f, "n"), gi(f, "sz"), gi(f, "gap")
+	B := k.iss + 1
+	stream := wire.Pattern(slot, (n+1)*(sz+gap)+8) // the peer's byte stream; block i = [off(i), off(i)+sz)
+	off := func(i int) int { return gap + i*(sz+gap) }
+	seg := func(from, to int) {
+		send(pkt{Nic: 1, Proto: 0x0800, Parts: [][]byte{k.seg(wire.PSH|wire.ACK, B+uint32(from), k.rcv, nil, stream[from:to])}})
+	}
+	order := make([]int, n)
+	for i := range order {
+		order[i] = i
+	}
+	switch gs(f, "ord") {
+	case "desc":
+		for i := range order {
+			order[i] = n - 1 - i
+		}
+	case "shuf":
+		rand.New(rand.NewSource(int64(n*1000+sz*10+gap))).Shuffle(n, func(i, j int) { order[i], order[j] = order[j], order[i] })
+	}
+	for _, i := range order {
+		seg(off(i), off(i)+sz)
+	}
+	switch gs(f, "dup") {
+	case "dup":
+		for _, i := range order {
+			seg(off(i), off(i)+sz)
+		}
+	case "merge": // a segment from the last byte of block i to the first byte of block i+1 merges the two
+		for i := 0; i+1 < n; i += 2 {
+			seg(off(i)+sz-1, off(i+1)+1)
+		}
+	}
+	if gb(f, "fill") {
+		for i := 0; i < n; i++ {
+			seg(off(i)-gap, off(i))
+		}
+	}
+	if !dry {
+		end := uint32(off(n-1) + sz)
+		for _, o := range []uint32{0, uint32(gap), end, end + 1} {
+			c.Inject(1, 0x0800, [][]byte{k.seg(wire.RST, B+o, 0, nil, nil)})
+		}
+	}
+	return nil
+}
+
+func (c *child) runESeq(cs *Case, slot int, send func(pkt), dry bool) error {
+	k, win, synOpts, err := c.openConn(cs, slot, dry)
+	if err != nil {
+		return err
 	}
 	B := k.iss + 1
 	blk := func(i int) []byte { return wire.Pattern(slot*31+i, 5) }
